@@ -2,8 +2,9 @@
 
 A v1 certificate has at most four elements (names are restricted to VALID_NAMES by the element constructor), so
 the element map is a *finite map* over that universe and every statement about paths to the root is a finite
-formula.  link_valid / pubkey_of are uninterpreted: the cryptographic primitives (secp256k1 ECDSA, HMAC-SHA256 tweak)
-are assumed, not verified."""
+formula.  The cryptographic primitives (secp256k1 key parsing / serialisation / tweak / DER / ECDSA verification,
+HMAC-SHA256) are uninterpreted functions; link_valid is the property's link condition written over them, and the
+library calls of is_valid / get_pubkey are modelled one to one onto them (assumed, not verified)."""
 from pyvc import terms as tm
 from pyvc.terms import INT, BOOL, STR, BYTES
 from pyvc.values import Sym, JVal, Obj, PyDict, FiniteMap, Opaque, Raise, Unsupported, to_term, as_value, kind_of, is_sym
@@ -16,9 +17,32 @@ NAMES = ("device", "attestation", "ui", "signer")
 KEY = "PubKey"
 tm.USORTS.add(KEY)
 root_key = tm.FunDecl("cert.root_key", [], KEY)                      # the given root of trust
-pubkey_of = tm.FunDecl("cert.pubkey_of_hex", [STR], KEY)             # ec.PublicKey(bytes.fromhex(value))
-# ECDSA verification of `signature` over `message` under key (tweaked by HMAC-SHA256(tweak, key) when has_tweak)
-link_valid = tm.FunDecl("cert.link_valid", [STR, STR, BOOL, STR, KEY], BOOL)
+# secp256k1 / HMAC primitives (A-CRYPTO): uninterpreted, the library calls of is_valid / get_pubkey map onto them one to one
+secp_parse_ok = tm.FunDecl("secp.parse_ok", [BYTES], BOOL)           # ec.PublicKey(b, raw=True) succeeds
+secp_parse = tm.FunDecl("secp.parse", [BYTES], KEY)
+secp_ser = tm.FunDecl("secp.serialize", [KEY, BOOL], BYTES)          # key.serialize(compressed)
+hmac_sha256 = tm.FunDecl("hmac_sha256", [BYTES, BYTES], BYTES)       # hmac.new(key, msg, sha256).digest()
+secp_tweak_ok = tm.FunDecl("secp.tweak_ok", [KEY, BYTES], BOOL)      # key.tweak_add(t) succeeds
+secp_tweak = tm.FunDecl("secp.tweak_add", [KEY, BYTES], KEY)
+secp_deser_ok = tm.FunDecl("secp.der_ok", [BYTES], BOOL)             # ecdsa_deserialize(der) succeeds
+secp_verify = tm.FunDecl("secp.ecdsa_verify", [KEY, BYTES, BYTES], BOOL)   # ecdsa_verify(msg, deserialize(der)) under key
+
+
+def link_valid(message, signature, has_tweak, tweak, keyspec):
+    """The property's link condition, over the primitives: `signature` (hex DER) is a valid ECDSA signature over
+    `message` (hex) by the certifier's key - tweaked by HMAC-SHA256(tweak, uncompressed key) when a tweak is declared.
+    keyspec = (the certifier's key could be obtained, the key)."""
+    key_ok, key = keyspec
+    hm = hmac_sha256(V.unhex(tweak), secp_ser(key, tm.FALSE))
+    vkey = tm.Ite(has_tweak, secp_tweak(key, hm), key)
+    return tm.And(key_ok, tm.Implies(has_tweak, secp_tweak_ok(key, hm)), secp_deser_ok(V.unhex(signature)),
+                  secp_verify(vkey, V.unhex(message), V.unhex(signature)))
+
+
+def pubkey_of(value_hex):
+    """(ok, key) of ec.PublicKey(bytes.fromhex(value), raw=True)"""
+    b = V.unhex(value_hex)
+    return (secp_parse_ok(b), secp_parse(b))
 
 
 def sterm(v):
@@ -119,7 +143,7 @@ def target_ok(ip, st, m, t):
 
 def keyterm(st, certifier):
     if isinstance(certifier, Obj) and certifier.cls.name == "HSMCertificateRoot":
-        return root_key()
+        return (tm.TRUE, root_key())
     f = elem_fields(st, certifier)
     return pubkey_of(value_term(f["name"], f["message"]))
 
@@ -136,7 +160,7 @@ def verdict_terms(ent, n, fuel):
 
     def link(key):
         return link_valid(f["message"], f["signature"], f["has_tweak"], f["tweak"], key)
-    top = link(root_key())
+    top = link((tm.TRUE, root_key()))
     ok, fail = top, tm.Ite(top, tm.Str(""), tm.Str(n))
     if fuel > 0:
         for m in ent:
@@ -247,5 +271,87 @@ def value_of(ip, st, element):
 
 @native
 def element_wf(ip, st, element):
+    """what the element constructor checked (or: the value is the root of trust, which has nothing to check)"""
+    if isinstance(element, Obj) and element.cls.name == "HSMCertificateRoot":
+        return True
     f = elem_fields(st, element)
     return as_value("bool", tm.And(f["tweak_wf"], tm.Or(*[tm.Eq(f["name"], tm.Str(n)) for n in NAMES])))
+
+
+# ------------------------------------------------------------------------------------------ library externals (A-CRYPTO)
+def _register_crypto():
+    from pyvc import interp as I
+
+    def lib_error(st, what):
+        return Raise(I.make_exc(st, "Exception", what))
+
+    def _new_pubkey(ip, st, cls, args, kwargs):
+        b = args[0] if args else kwargs.get("pubkey")
+        if kind_of(b) != "bytes":
+            yield st, lib_error(st, "PublicKey of a non-bytes value")
+            return
+        bt = to_term(b)
+        for st1, ok in ip.branch(st, as_value("bool", secp_parse_ok(bt))):
+            if ok:
+                yield st1, Opaque("secp_pub", dict(key=secp_parse(bt)))
+            else:
+                yield st1, lib_error(st1, "invalid public key")
+    LM.ext_class("secp256k1.PublicKey")
+    LM.CLASS_HOOKS["secp256k1.PublicKey"] = _new_pubkey
+
+    @LM.opaque_method("secp_pub", "serialize")
+    def _serialize(ip, st, recv, args, kwargs):
+        comp = args[0] if args else kwargs.get("compressed", True)
+        if is_sym(comp):
+            raise Unsupported("symbolic compression flag")
+        yield st, Sym("bytes", secp_ser(recv.attrs["key"], tm.Bool(bool(comp))))
+
+    @LM.opaque_method("secp_pub", "tweak_add")
+    def _tweak_add(ip, st, recv, args, kwargs):
+        (t,) = args
+        if kind_of(t) != "bytes":
+            yield st, lib_error(st, "tweak must be bytes")
+            return
+        k, tt = recv.attrs["key"], to_term(t)
+        for st1, ok in ip.branch(st, as_value("bool", secp_tweak_ok(k, tt))):
+            if ok:
+                yield st1, Opaque("secp_pub", dict(key=secp_tweak(k, tt)))
+            else:
+                yield st1, lib_error(st1, "invalid tweak")
+
+    @LM.opaque_method("secp_pub", "ecdsa_deserialize")
+    def _deser(ip, st, recv, args, kwargs):
+        (d,) = args
+        if kind_of(d) != "bytes":
+            yield st, lib_error(st, "signature must be bytes")
+            return
+        dt = to_term(d)
+        for st1, ok in ip.branch(st, as_value("bool", secp_deser_ok(dt))):
+            if ok:
+                yield st1, Opaque("secp_sig", dict(der=dt))
+            else:
+                yield st1, lib_error(st1, "invalid DER signature")
+
+    @LM.opaque_method("secp_pub", "ecdsa_verify")
+    def _verify(ip, st, recv, args, kwargs):
+        msg, sig = args[0], args[1]
+        if kind_of(msg) != "bytes" or not (isinstance(sig, Opaque) and sig.tag == "secp_sig"):
+            yield st, lib_error(st, "bad argument types")
+            return
+        yield st, as_value("bool", secp_verify(recv.attrs["key"], to_term(msg), sig.attrs["der"]))
+
+    @LM.register_external("hmac.new")
+    def _hmac_new(ip, st, args, kwargs):
+        key, msg = args[0], (args[1] if len(args) > 1 else kwargs.get("msg"))
+        if kind_of(key) != "bytes" or kind_of(msg) != "bytes":
+            yield st, lib_error(st, "hmac of non-bytes")
+            return
+        yield st, Opaque("hmac", dict(mac=hmac_sha256(to_term(key), to_term(msg))))
+
+    @LM.opaque_method("hmac", "digest")
+    def _hmac_digest(ip, st, recv, args, kwargs):
+        yield st, Sym("bytes", recv.attrs["mac"])
+
+
+_register_crypto()
+ROOT_PUBKEY = Opaque("secp_pub", dict(key=root_key()))
